@@ -2667,27 +2667,27 @@ fn unify(e1: &mut TypedExpr, e2: &mut TypedExpr, m: MetaInfo) -> Result<Type, Ty
     let ty = match (&e1.ty, &e2.ty) {
         (ty1, ty2) if ty1 == ty2 => ty1.clone(),
         (Type::Unsigned(UnsignedNumType::Unspecified), Type::Unsigned(ty2)) => {
-            check_or_constrain_unsigned(e1, *ty2)?;
+            constrain_type(e1, &Type::Unsigned(*ty2))?;
             Type::Unsigned(*ty2)
         }
         (Type::Unsigned(ty1), Type::Unsigned(UnsignedNumType::Unspecified)) => {
-            check_or_constrain_unsigned(e2, *ty1)?;
+            constrain_type(e2, &Type::Unsigned(*ty1))?;
             Type::Unsigned(*ty1)
         }
         (Type::Unsigned(UnsignedNumType::Unspecified), Type::Signed(ty2)) => {
-            check_or_constrain_signed(e1, *ty2)?;
+            constrain_type(e1, &Type::Signed(*ty2))?;
             Type::Signed(*ty2)
         }
         (Type::Signed(ty1), Type::Unsigned(UnsignedNumType::Unspecified)) => {
-            check_or_constrain_signed(e2, *ty1)?;
+            constrain_type(e2, &Type::Signed(*ty1))?;
             Type::Signed(*ty1)
         }
         (Type::Signed(SignedNumType::Unspecified), Type::Signed(ty2)) => {
-            check_or_constrain_signed(e1, *ty2)?;
+            constrain_type(e1, &Type::Signed(*ty2))?;
             Type::Signed(*ty2)
         }
         (Type::Signed(ty1), Type::Signed(SignedNumType::Unspecified)) => {
-            check_or_constrain_signed(e2, *ty1)?;
+            constrain_type(e2, &Type::Signed(*ty1))?;
             Type::Signed(*ty1)
         }
         _ => {
